@@ -220,10 +220,13 @@ class Node:
         try:
             with contextlib.redirect_stdout(io.StringIO()):
                 cs = su.read_chain_from_disk()
+            read_order = [b.hash() for b in s2.read_blocks_from_disk()]      # the order in which the store hands the blocks to the start-up path
         finally:
             bs.DefaultBlockStore.instance = prev
             s2.close()
-        return cls(cs, genesis, clock=clock, store_path=path, port=old.local.port, name=old.name)
+        node = cls(cs, genesis, clock=clock, store_path=path, port=old.local.port, name=old.name)
+        node.read_order = read_order
+        return node
 
     def use_store(self):
         if self.store is not None:
